@@ -26,6 +26,7 @@ import (
 	"encoding/hex"
 	"encoding/json"
 	"fmt"
+	"io"
 	"os"
 	"os/user"
 	"path/filepath"
@@ -415,6 +416,17 @@ func roundTrip(r *vrun.Run, rp *reporter, ctx context.Context, vfs filesystem.FS
 		}
 		return "unzip"
 	}
+	// the tree itself: its root is a directory after the round trip, also when the tree holds nothing else
+	if root, ok := outSnap["."]; !ok || root.Kind != "dir" {
+		pre := "tree with entries"
+		if len(c.Nodes) == 0 {
+			pre = "empty tree"
+		}
+		rp.v(vrun.Sig{"phase": "unzip", "effect": "root-of-the-tree-missing", "pre": pre},
+			fmt.Sprintf("%s succeeded (returned %d paths) but the directory it was told to extract into does not exist afterwards (kind %q)", c.UnzipEP, len(list), root.Kind), nil)
+	} else if len(c.Nodes) == 0 {
+		r.Obs("empty_trees_round_tripped", 1)
+	}
 	// paths, kinds, contents
 	paths := map[string]bool{}
 	for p := range srcSnap {
@@ -682,6 +694,33 @@ func checkView(r *vrun.Run, rp *reporter, ctx context.Context, fsName string, v 
 				r.Obs("view_files_read_twice_"+fsName, 1)
 				if err2 != nil || int64(len(b2)) != s.Size || hash12(b2) != s.Hash {
 					rp.v(sig("ReadFile", "second-read-differs", ec(p)), fmt.Sprintf("%s view: the second ReadFile(%q) returns %d bytes (err %v), the first returned the %d bytes of the source", fsName, vp, len(b2), err2, s.Size), nil)
+				}
+			}
+			// ... and through a handle: everything, then from an offset the handle was successfully moved to, then from the start again
+			if err == nil && s.Size >= 2 && s.Size <= 1<<20 {
+				if h, oerr := v.GenericOpen(vp); oerr != nil {
+					rp.v(sig("GenericOpen", "error:"+kindOf(oerr), ec(p)), fmt.Sprintf("%s view: GenericOpen(%q) failed: %v", fsName, vp, oerr), nil)
+				} else {
+					readRest := func(step string, want []byte) {
+						got, rerr := io.ReadAll(h)
+						r.Obs("view_handle_reads_judged_"+fsName, 1)
+						if rerr != nil || !bytes.Equal(got, want) {
+							rp.v(sig("handle", "content-"+step, ec(p)), fmt.Sprintf("%s view: reading the handle of %q %s returns %d bytes (err %v) instead of the %d bytes of the source from there", fsName, vp, step, len(got), rerr, len(want)), nil)
+						}
+					}
+					readRest("from-the-start", b)
+					k := s.Size / 3
+					if pos, serr := h.Seek(k, io.SeekStart); serr == nil && pos == k {
+						readRest("after-seeking-forward-from-the-end", b[k:])
+					} else {
+						r.Obs("view_handle_seeks_refused_"+fsName, 1)
+					}
+					if pos, serr := h.Seek(0, io.SeekStart); serr == nil && pos == 0 {
+						readRest("after-rewinding", b)
+					} else {
+						r.Obs("view_handle_seeks_refused_"+fsName, 1)
+					}
+					_ = h.Close()
 				}
 			}
 			r.Obs("view_files_read_"+fsName, 1)
